@@ -77,6 +77,9 @@ def main():
     classes, lines, expect_err, expect_type = {}, [], {}, {}
     for i in range(n):
       name = 'K%d' % i
+      # a class statement may rebind an existing name: the old class stays reachable through its subclasses, so two
+      # different classes with the same name meet in one hierarchy
+      rebind = rnd.choice(list(classes)) if len(classes) >= 2 and rnd.random() < 0.3 else None
       avail = list(classes)
       nb = rnd.randint(0, min(3, len(avail)))
       if avail and rnd.random() < 0.15:
@@ -87,6 +90,12 @@ def main():
       lit, tname = LITS[i % len(LITS)]
       body = {'x': eval(lit)} if has_x else {}   # pylint: disable=eval-used
       lineno = len(lines) + 1
+      if rebind:
+        try:
+          type(rebind, tuple(classes[b] for b in bases), body)
+          name = rebind
+        except TypeError:
+          pass   # a refused statement keeps its fresh name: the old binding would stay in force under CPython
       lines.append('class %s(%s):' % (name, ', '.join(bases)) if bases else 'class %s:' % name)
       lines.append('  x = %s' % lit if has_x else '  pass')
       try:
@@ -131,7 +140,7 @@ def main():
                     bound='every hierarchy of <=%d classes with <=3 distinct bases each, vs type().__mro__ / TypeError' % maxc,
                     cases=checked[0]),
                dict(function='Class.compute_mro + attribute lookup through the VM',
-                    bound='%d random programs of 3-7 class statements (incl. duplicate and inconsistent bases)' % nprog,
+                    bound='%d random programs of 3-7 class statements (incl. duplicate and inconsistent bases, class names rebound while subclasses keep the old class)' % nprog,
                     cases=vm_checks)],
       spec_validation=[dict(spec='StepP chain (z3) is CPython pmerge: MROMerge is proved equal to the chain, and compared here with type()')],
       counts=dict(hierarchies=checked[0], vm_checks=vm_checks))))
